@@ -259,7 +259,26 @@ def check_delegates(ctx, cfg):
         ln = self_len(a)
         ok = bool(a.returns) and all(is_full_view(r["val"], ("arg", 1), ln) for r in a.returns)
         ctx.ob(rule, key, ok, "returns " + ", ".join(vstr(r["val"]) for r in a.returns), at=b["at"], cfg=cfg)
-    for key, callee, mode in DELEGATES:
+    # the by-value conversions between `[T; U]` and the array are found by the shape of their impl headers (From with a GenericArray on one
+    # side and a native array on the other), not by key: how the header spells the length tie - `GenericArray<T, ConstArrayLength<U>>` or
+    # `GenericArray<T, N> where Const<U>: IntoArrayLength<ArrayLength = N>` - is the same impl (the tie itself: C02.T / C12.W)
+    dels = list(DELEGATES[:2])
+    db_ = ctx.db(cfg)
+    found_ = {"to": 0, "from": 0}
+    for imp in db_.impls:
+        if imp.get("trait") != "core::convert::From":
+            continue
+        oth = [x for x in imp.get("trait_args", [])[1:] if isinstance(x, dict) and x.get("k") != "region"]
+        if not oth:
+            continue
+        if is_ga(imp["self"]) and oth[0].get("k") == "array":
+            dels.append((db_.impl_key(imp) + "::from", "GenericArray::<T, N>::from_array", "val"))
+            found_["to"] += 1
+        elif imp["self"].get("k") == "array" and is_ga(oth[0]):
+            dels.append((db_.impl_key(imp) + "::from", "GenericArray::<T, N>::into_array", "val"))
+            found_["from"] += 1
+    ctx.ob(rule, "by-value native-array conversions (%s)" % cfg, found_["to"] >= 1 and found_["from"] >= 1, "From<[T; U]> for GenericArray impls: %d; From<GenericArray> for [T; U] impls: %d" % (found_["to"], found_["from"]), cfg=cfg)
+    for key, callee, mode in dels:
         b = ctx.body(cfg, key, rule)
         if b is None:
             continue
